@@ -4,7 +4,7 @@ import re
 
 from ..lib.cfgq import switch_edges, dominating_guards
 from ..lib.facts import callee_fn, is_callee, sp_str
-from ..lib.trace import Tracer, canon, strip, walk
+from ..lib.trace import Tracer, canon, strip, walk, alternatives
 
 STRUCTURAL = (r"Vec::<T, A>::(remove|swap_remove|truncate|clear|pop|drain|retain|retain_mut|split_off|dedup\w*|insert|push|append|extend\w*|resize\w*|set_len)$",
               r"<impl \[T\]>::(sort\w*|reverse|swap|rotate\w*|fill\w*)$",
@@ -28,12 +28,12 @@ def field_mutations(prog, owner, field):
             tr = tr or Tracer(f.body)
             recv = tr.operand(t["args"][0])
             hit = False
-            x = strip(recv)
-            if x[0] == "place":
-                # the receiver must be the field itself (last field projection), not something derived from it
-                fl = [p for p in x[2] if p[0] == "field"]
-                if fl and fl[-1][1] == owner and fl[-1][3] == field and x[2][-1][0] in ("field", "deref"):
-                    hit = True
+            for x in alternatives(recv):      # a `&mut` alias chosen among several fields is a mutation of each of them
+                if x[0] == "place":
+                    # the receiver must be the field itself (last field projection), not something derived from it
+                    fl = [p for p in x[2] if p[0] == "field"]
+                    if fl and fl[-1][1] == owner and fl[-1][3] == field and x[2][-1][0] in ("field", "deref"):
+                        hit = True
             if hit:
                 out.append((f, "call", callee_fn(t)["def"].rsplit("::", 1)[-1], sp_str(t["sp"]), b, t))
         for b, idx, st in f.body.field_writes():
@@ -73,25 +73,28 @@ def attributes_add_shape(prog, rep, rule):
     body, tr = f.body, Tracer(f.body)
     calls = sorted({re.sub(r"<[^<>]*>", "", callee_fn(t)["def"]).replace("::::", "::") for b, t in body.calls() if callee_fn(t)})
     allowed = {"std::collections::HashMap::entry", "std::convert::Into::into", "std::collections::hash_map::OccupiedEntry::get",
-               "std::cmp::PartialEq::ne", "std::collections::hash_map::OccupiedEntry::insert", "std::collections::hash_map::VacantEntry::insert"}
+               "std::cmp::PartialEq::ne", "std::cmp::PartialEq::eq", "std::collections::hash_map::OccupiedEntry::insert", "std::collections::hash_map::VacantEntry::insert"}
     extra = [c for c in calls if c not in allowed]
     rep.check(not extra, rule, "Attributes::add :: callees", f.loc(), "only entry/get/ne/insert are involved in the decision",
               "Attributes::add consults something else than the stored and the new value: %s" % extra)
     # switch structure
     entry_sw = None
     ne_sw = None
+    ne_is_eq = False
     for b in sorted(body.reachable()):
         for g in switch_edges(body, tr, b):
             c = canon(g.cond)
             if g.variant in ("Occupied", "Vacant"):
                 entry_sw = b
-            if c.startswith("PartialEq::ne(") and "OccupiedEntry::get" in c:
+            if c.startswith(("PartialEq::ne(", "PartialEq::eq(")) and "OccupiedEntry::get" in c:
                 ne_sw = b
+                ne_is_eq = c.startswith("PartialEq::eq(")
     ok = entry_sw is not None and ne_sw is not None
     detail = ""
     if ok:
         edges = {g.variant: g for g in switch_edges(body, tr, entry_sw)}
-        ne = {g.value: g for g in switch_edges(body, tr, ne_sw)}
+        # ne[True] = the edge taken when the stored value differs from the new one (`!=` true or `==` false)
+        ne = {(g.value is not ne_is_eq) if isinstance(g.value, bool) else g.value: g for g in switch_edges(body, tr, ne_sw)}
         def region(dst, others):
             return body.reach_from([dst], avoid=others)
         def has(blocks, pred):
